@@ -1,16 +1,508 @@
-/- C04 — property theorems only. -/
+/-
+C04 — tilings are exact partitions and blocks reassemble the mosaic.
+
+Property theorems only (helpers are in `Lemmas/C04.lean`).  One axis is treated; the 2-D
+statements at the end lift it through `zip2` exactly as the library zips `(y, x)`.
+
+* regular tiles (`Tiles`): every `N`, every tile size `n > 0` (tile larger than the image,
+  non-dividing sizes and 1-pixel tiles are not special cases);
+* variable tiles (`VariableSizedTiles`): every chunk tuple with non-negative entries
+  (zero-length chunks included) whose sum fits `int32` (`ChunksOK`; the wrap-around of larger
+  sums is in the model and compared with the code, but nothing is claimed about it);
+* `NSlice.Has s y` : pixel `y` lies in the region `[s.start, s.stop)`.
+-/
 import OdcGeo.Model.C04
+import OdcGeo.Lemmas.C04
 import Mathlib.Tactic.Linarith
+import Mathlib.Tactic.Ring
 namespace OdcGeo.C04
-open OdcGeo.C17
+open OdcGeo OdcGeo.C17 OdcGeo.NpArray
 
 /-- `count` is the ceiling of `N / n`: the least `T` with `N ≤ T * n`. -/
-theorem count_is_ceil (N n : Int) (hn : 0 < n) : (count N n - 1) * n < N ∧ N ≤ count N n * n := by
-  unfold count ceilDiv
-  rw [if_pos hn]
-  have h1 := Int.emod_add_mul_ediv (N + n - 1) n
-  have h2 := Int.emod_nonneg (N + n - 1) (by omega : n ≠ 0)
-  have h3 := Int.emod_lt_of_pos (N + n - 1) hn
-  constructor <;> nlinarith
+theorem count_is_ceil (N n : Int) (hn : 0 < n) : (count N n - 1) * n < N ∧ N ≤ count N n * n :=
+  count_spec N n hn
+
+/-! ## regular tiles -/
+
+theorem getItem_idx (N n : Int) (hn : 0 < n) (i : Int) (hi : 0 ≤ i ∧ i < count N n) :
+    getItem N n (.idx i) = .ok ⟨i * n, min ((i + 1) * n) N⟩ := by
+  have h := (mul_lt_iff_lt_count N n i hn).2 hi.2
+  have h0 : 0 ≤ i * n := Int.mul_nonneg hi.1 (by omega)
+  have e : (i + 1) * n = i * n + n := by ring
+  rw [getItem_of_norm N n _ i (i + 1) (by rw [normSlice_idx, if_neg (by omega)])]
+  rw [if_pos ⟨h0, h, by omega⟩]
+
+theorem getItem_negative_index (N n : Int) (i : Int) (hi : i < 0) :
+    getItem N n (.idx i) = getItem N n (.idx (count N n + i)) ∨ count N n + i < 0 := by
+  by_cases h : count N n + i < 0
+  · exact Or.inr h
+  · left
+    rw [getItem_of_norm N n (.idx i) (count N n + i) (count N n + i + 1)
+          (by rw [normSlice_idx, if_pos hi]),
+        getItem_of_norm N n (.idx (count N n + i)) (count N n + i) (count N n + i + 1)
+          (by rw [normSlice_idx, if_neg h])]
+
+theorem tiles_partition (N n : Int) (hn : 0 < n) (y : Int) (hy : 0 ≤ y ∧ y < N) :
+    ∃! i : Int, (0 ≤ i ∧ i < count N n) ∧
+      ∃ s, getItem N n (.idx i) = .ok s ∧ s.Has y := by
+  obtain ⟨b1, b2⟩ := ediv_bounds y n hn
+  have hq0 : 0 ≤ y / n := Int.ediv_nonneg hy.1 (by omega)
+  have hqT : y / n < count N n := (mul_lt_iff_lt_count N n _ hn).1 (by omega)
+  refine ⟨y / n, ⟨⟨hq0, hqT⟩, _, getItem_idx N n hn _ ⟨hq0, hqT⟩, ?_⟩, ?_⟩
+  · simp only [NSlice.Has]; omega
+  · rintro j ⟨hj, s, hs, hy'⟩
+    rw [getItem_idx N n hn j hj] at hs
+    cases hs
+    simp only [NSlice.Has] at hy'
+    exact ediv_unique y n j hn hy'.1 (by omega)
+
+theorem regions_disjoint (N n : Int) (hn : 0 < n) (i j : Int)
+    (hi : 0 ≤ i ∧ i < count N n) (hj : 0 ≤ j ∧ j < count N n) (hij : i ≠ j) (si sj : NSlice)
+    (hsi : getItem N n (.idx i) = .ok si) (hsj : getItem N n (.idx j) = .ok sj) (y : Int) :
+    ¬ (si.Has y ∧ sj.Has y) := by
+  rw [getItem_idx N n hn i hi] at hsi
+  rw [getItem_idx N n hn j hj] at hsj
+  cases hsi; cases hsj
+  simp only [NSlice.Has]
+  rintro ⟨⟨a1, a2⟩, b1, b2⟩
+  exact hij ((ediv_unique y n i hn a1 (by omega)).trans (ediv_unique y n j hn b1 (by omega)).symm)
+
+theorem region_within (N n : Int) (idx : PIdx) (s : NSlice)
+    (h : getItem N n idx = .ok s) : 0 ≤ s.start ∧ s.start < N ∧ s.stop ≤ N := by
+  simp only [getItem] at h
+  split at h
+  · next hc => cases h; simp only []; omega
+  · cases h
+
+theorem tile_region_nonempty (N n : Int) (hn : 0 < n) (i : Int) (s : NSlice)
+    (h : getItem N n (.idx i) = .ok s) : s.start < s.stop := by
+  rw [getItem_of_norm N n _ _ _ (normSlice_idx _ i)] at h
+  generalize (if i < 0 then count N n + i else i) = j at h
+  have e : (j + 1) * n = j * n + n := by ring
+  by_cases hc : 0 ≤ j * n ∧ j * n < N ∧ (j + 1) * n < N + n
+  · rw [if_pos hc] at h
+    cases h
+    simp only []
+    omega
+  · rw [if_neg hc] at h
+    cases h
+
+theorem tileShape_idx (N n : Int) (i : Int) (hi : 0 ≤ i ∧ i < count N n) :
+    tileShape N n i = .ok (if i < count N n - 1 then n else N - i * n) := by
+  rw [tileShape_of, if_neg (by omega : ¬ i < 0)]
+  by_cases h : i < count N n - 1
+  · rw [if_pos ⟨hi.1, h⟩, if_pos h]
+  · rw [if_neg (by omega), if_pos ⟨hi.1, by omega⟩, if_neg h]
+
+theorem tileShape_error_iff (N n : Int) (i : Int) :
+    tileShape N n i = .error .indexError ↔ (i < -count N n ∨ count N n ≤ i) := by
+  rw [tileShape_of]
+  generalize hj : (if i < 0 then count N n + i else i) = j
+  have : (i < 0 ∧ j = count N n + i) ∨ (¬ i < 0 ∧ j = i) := by
+    by_cases h : i < 0
+    · rw [if_pos h] at hj; exact Or.inl ⟨h, hj.symm⟩
+    · rw [if_neg h] at hj; exact Or.inr ⟨h, hj.symm⟩
+  by_cases h1 : 0 ≤ j ∧ j < count N n - 1
+  · rw [if_pos h1]; simp; omega
+  · rw [if_neg h1]
+    by_cases h2 : 0 ≤ j ∧ j = count N n - 1
+    · rw [if_pos h2]; simp; omega
+    · rw [if_neg h2]; simp; omega
+
+theorem tile_shape_eq_region_len (N n : Int) (hn : 0 < n) (i : Int) (s : NSlice)
+    (h : getItem N n (.idx i) = .ok s) : tileShape N n i = .ok (s.stop - s.start) := by
+  rw [getItem_of_norm N n _ _ _ (normSlice_idx _ i)] at h
+  rw [tileShape_of]
+  generalize (if i < 0 then count N n + i else i) = j at h ⊢
+  have e : (j + 1) * n = j * n + n := by ring
+  by_cases hc : 0 ≤ j * n ∧ j * n < N ∧ (j + 1) * n < N + n
+  · rw [if_pos hc] at h
+    cases h
+    simp only []
+    have hjT := (mul_lt_iff_lt_count N n j hn).1 hc.2.1
+    have hj0 : 0 ≤ j := by
+      by_contra hneg
+      have : j * n < 0 := Int.mul_neg_of_neg_of_pos (by omega) hn
+      omega
+    by_cases h1 : j < count N n - 1
+    · rw [if_pos ⟨hj0, h1⟩]
+      have := (mul_lt_iff_lt_count N n (j + 1) hn).2 (by omega)
+      congr 1; omega
+    · rw [if_neg (by omega), if_pos ⟨hj0, by omega⟩]
+      have : N ≤ (j + 1) * n := by
+        have h2 := (count_spec N n hn).2
+        have : count N n = j + 1 := by omega
+        rw [this] at h2; exact h2
+      congr 1; omega
+  · rw [if_neg hc] at h; cases h
+
+theorem chunks_spec (N n : Int) (hn : 0 < n) (hN : 0 < N) :
+    ∃ cs, chunks N n = .ok cs ∧ (cs.length : Int) = count N n ∧ cs.sum = N ∧
+      ∀ i : Nat, (i : Int) < count N n → ∃ c, cs[i]? = some c ∧ tileShape N n i = .ok c := by
+  have hT := count_pos N n hn hN
+  have h0 := tileShape_idx N n 0 ⟨le_refl 0, hT⟩
+  have hl := tileShape_idx N n (count N n - 1) ⟨by omega, by omega⟩
+  rw [if_neg (by omega)] at hl
+  have hc : chunks N n = .ok (List.replicate (count N n - 1).toNat
+      (if (0:Int) < count N n - 1 then n else N - 0 * n) ++ [N - (count N n - 1) * n]) := by
+    simp only [chunks, h0, hl, bind, Except.bind, pure, Except.pure]
+  refine ⟨_, hc, ?_, ?_, ?_⟩
+  · simp; omega
+  · rw [List.sum_append, sum_replicate]
+    simp only [List.sum_cons, List.sum_nil]
+    have : (((count N n - 1).toNat : Nat) : Int) = count N n - 1 := by omega
+    rw [this]
+    by_cases h1 : (0:Int) < count N n - 1
+    · rw [if_pos h1]; ring
+    · rw [if_neg h1]
+      have : count N n - 1 = 0 := by omega
+      rw [this]; ring
+  · intro i hi
+    rw [tileShape_idx N n i ⟨by omega, hi⟩]
+    by_cases h1 : (i : Int) < count N n - 1
+    · rw [if_pos h1]
+      refine ⟨_, ?_, rfl⟩
+      rw [List.getElem?_append_left (by simp; omega), List.getElem?_replicate]
+      rw [if_pos (by omega), if_pos (by omega)]
+    · rw [if_neg h1]
+      refine ⟨_, ?_, rfl⟩
+      rw [List.getElem?_append_right (by simp; omega)]
+      have : i - (List.replicate (count N n - 1).toNat
+          (if (0:Int) < count N n - 1 then n else N - 0 * n)).length = 0 := by simp; omega
+      rw [this]
+      have : (i : Int) = count N n - 1 := by omega
+      simp [this]
+
+theorem chunks_error_of_empty (N n : Int) (hn : 0 < n) (hN : N ≤ 0) :
+    chunks N n = .error .indexError := by
+  have hT := count_le_zero N n hn hN
+  have : tileShape N n 0 = .error .indexError := (tileShape_error_iff N n 0).2 (Or.inr hT)
+  simp only [chunks, this, bind, Except.bind]
+
+theorem locate_inverse (N n : Int) (hn : 0 < n) (y : Int) (hy : 0 ≤ y ∧ y < N) :
+    ∃ i s, locate N n y = .ok i ∧ (0 ≤ i ∧ i < count N n) ∧
+      getItem N n (.idx i) = .ok s ∧ s.Has y := by
+  have hT := count_pos N n hn (by omega)
+  have h0 := tileShape_idx N n 0 ⟨le_refl 0, hT⟩
+  have hloc : locate N n y = .ok (y / (if (0:Int) < count N n - 1 then n else N - 0 * n)) := by
+    simp only [locate, h0, bind, Except.bind, pure, Except.pure]
+    rw [if_neg (by omega)]
+  by_cases h1 : (0:Int) < count N n - 1
+  · rw [if_pos h1] at hloc
+    obtain ⟨b1, b2⟩ := ediv_bounds y n hn
+    have hq0 : 0 ≤ y / n := Int.ediv_nonneg hy.1 (by omega)
+    have hqT : y / n < count N n := (mul_lt_iff_lt_count N n _ hn).1 (by omega)
+    refine ⟨_, _, hloc, ⟨hq0, hqT⟩, getItem_idx N n hn _ ⟨hq0, hqT⟩, ?_⟩
+    simp only [NSlice.Has]; omega
+  · rw [if_neg h1] at hloc
+    have hT1 : count N n = 1 := by omega
+    have hq : y / (N - 0 * n) = 0 := by
+      rw [Int.zero_mul, Int.sub_zero]; exact Int.ediv_eq_zero_of_lt hy.1 hy.2
+    rw [hq] at hloc
+    refine ⟨_, _, hloc, ⟨le_refl 0, hT⟩, getItem_idx N n hn _ ⟨le_refl 0, hT⟩, ?_⟩
+    have := (count_spec N n hn).2
+    rw [hT1] at this
+    simp only [NSlice.Has]; omega
+
+theorem locate_error_iff (N n : Int) (hn : 0 < n) (y : Int) :
+    locate N n y = .error .indexError ↔ (y < 0 ∨ N ≤ y) := by
+  constructor
+  · intro h
+    by_contra hc
+    obtain ⟨i, s, hl, _⟩ := locate_inverse N n hn y (by omega)
+    rw [hl] at h; cases h
+  · intro h
+    simp only [locate]
+    rw [if_pos (by omega)]
+
+theorem crop_is_tiling_of_crop (N n : Int) (hn : 0 < n) (idx : PIdx) (a b : Int)
+    (hr : normSlice idx (count N n) = ⟨a, b⟩) (hab : 0 ≤ a ∧ a < b ∧ b ≤ count N n) :
+    ∃ N', crop N n idx = .ok N' ∧ N' = min (b * n) N - a * n ∧ count N' n = b - a ∧
+      ∀ k : Int, 0 ≤ k ∧ k < b - a →
+        ∃ s s', getItem N n (.idx (a + k)) = .ok s ∧ getItem N' n (.idx k) = .ok s' ∧
+          s.start = s'.start + a * n ∧ s.stop = s'.stop + a * n := by
+  have hg := getItem_block N n hn idx a b hr hab
+  have h2 := (mul_lt_iff_lt_count N n (b - 1) hn).2 (by omega)
+  have e1 : (b - 1) * n = b * n - n := by ring
+  have e2 : (b - a - 1) * n = b * n - a * n - n := by ring
+  have e3 : (b - a) * n = b * n - a * n := by ring
+  have hcnt : count (min (b * n) N - a * n) n = b - a :=
+    count_eq_of_bounds _ n _ hn (by omega) (by omega)
+  refine ⟨min (b * n) N - a * n, by simp only [crop, hg, bind, Except.bind, pure, Except.pure],
+    rfl, hcnt, ?_⟩
+  intro k hk
+  rw [getItem_idx N n hn (a + k) ⟨by omega, by omega⟩,
+      getItem_idx _ n hn k ⟨hk.1, by rw [hcnt]; exact hk.2⟩]
+  refine ⟨_, _, rfl, rfl, by simp only []; ring, ?_⟩
+  simp only []
+  have e4 : (a + k + 1) * n = (k + 1) * n + a * n := by ring
+  have e5 : (a + k + 1) * n ≤ b * n := Int.mul_le_mul_of_nonneg_right (by omega) (by omega)
+  omega
+
+theorem clip_rebases (N n : Int) (hn : 0 < n) (sel : List Int) (hne : sel ≠ [])
+    (hsel : ∀ s ∈ sel, 0 ≤ s ∧ s < count N n) :
+    ∃ N' y1 y2, clipTiles N n sel = .ok (N', ⟨y1, y2 + 1⟩, sel.map (· - y1)) ∧
+      count N' n = y2 + 1 - y1 ∧
+      ∀ s ∈ sel, ∃ r r', getItem N n (.idx s) = .ok r ∧ getItem N' n (.idx (s - y1)) = .ok r' ∧
+        r.start = r'.start + y1 * n ∧ r.stop = r'.stop + y1 * n := by
+  obtain ⟨y1, y2, hc, m1, m2, hb⟩ := clipSel_spec sel hne
+  have b1 := hsel y1 m1
+  have b2 := hsel y2 m2
+  have b12 := (hb y2 m2).1
+  have hr : normSlice (.slc (some y1) (some (y2 + 1))) (count N n) = ⟨y1, y2 + 1⟩ := by
+    simp only [normSlice, wrapNeg]
+    rw [if_pos (by omega), if_pos (by omega)]
+  obtain ⟨N', hcrop, _, hcnt, htiles⟩ :=
+    crop_is_tiling_of_crop N n hn _ y1 (y2 + 1) hr ⟨b1.1, by omega, by omega⟩
+  refine ⟨N', y1, y2, by simp only [clipTiles, hc, hcrop, bind, Except.bind, pure, Except.pure],
+    hcnt, ?_⟩
+  intro s hs
+  obtain ⟨r, r', h1, h2, h3, h4⟩ := htiles (s - y1) ⟨by have := hb s hs; omega, by have := hb s hs; omega⟩
+  have : y1 + (s - y1) = s := by omega
+  rw [this] at h1
+  exact ⟨r, r', h1, h2, h3, h4⟩
+
+theorem clipSel_empty : clipSel [] = .error .valueError := rfl
+
+theorem searchsorted_eq_linear_scan (xs : List Int) (key : Int) (hs : Sorted xs) :
+    searchsortedRight xs key = linearScanRight xs key := by
+  obtain ⟨_, r2, r3, r4⟩ := bsearchRight_spec xs key hs (xs.length + 1) 0 xs.length
+    (Nat.zero_le _) (le_refl _) (by omega) (fun i v h => by omega)
+    (fun i v h hv => by
+      have := (List.getElem?_eq_some_iff.1 hv).1
+      omega)
+  obtain ⟨t1, t2⟩ := takeWhile_length_spec (fun v => decide (v ≤ key)) xs
+  have t3 := takeWhile_length_le (fun v => decide (v ≤ key)) xs
+  unfold searchsortedRight linearScanRight
+  generalize bsearchRight xs key (xs.length + 1) 0 xs.length = r at *
+  generalize (List.takeWhile (fun v => decide (v ≤ key)) xs).length = r' at *
+  by_contra hne
+  rcases Nat.lt_or_gt_of_ne hne with h | h
+  · have hr : r < xs.length := by omega
+    have e := List.getElem?_eq_getElem hr
+    have a := t1 r _ h e
+    have b := r4 r _ (le_refl _) e
+    simp at a; omega
+  · have hr : r' < xs.length := by omega
+    have e := List.getElem?_eq_getElem hr
+    have a := t2 _ e
+    have b := r3 r' _ h e
+    simp at a; omega
+
+theorem searchsorted_split (xs : List Int) (key : Int) (hs : Sorted xs) :
+    searchsortedRight xs key ≤ xs.length ∧
+    (∀ i v, i < searchsortedRight xs key → xs[i]? = some v → v ≤ key) ∧
+    (∀ i v, searchsortedRight xs key ≤ i → xs[i]? = some v → key < v) := by
+  obtain ⟨_, r2, r3, r4⟩ := bsearchRight_spec xs key hs (xs.length + 1) 0 xs.length
+    (Nat.zero_le _) (le_refl _) (by omega) (fun i v h => by omega)
+    (fun i v h hv => by
+      have := (List.getElem?_eq_some_iff.1 hv).1
+      omega)
+  exact ⟨r2, r3, r4⟩
+
+theorem vgetItem_idx (ch : List Int) (hok : ChunksOK ch) (i : Nat) (hi : i < ch.length) :
+    vgetItem ch (.idx i) = .ok ⟨pre ch i, pre ch (i + 1)⟩ := by
+  rw [vgetItem_of_norm ch _ i ((i : Int) + 1) (by rw [normSlice_idx, if_neg (by omega)])]
+  rw [if_neg (by omega), npGet_offsets ch hok i (by omega)]
+  have : ((i : Int) + 1) = ((i + 1 : Nat) : Int) := by push_cast; rfl
+  rw [this, npGet_offsets ch hok (i + 1) (by omega)]
+  rfl
+
+theorem vindex_error_iff (ch : List Int) (i : Int) :
+    vgetItem ch (.idx i) = .error .indexError ↔ (i < -(ch.length : Int) ∨ (ch.length : Int) ≤ i) := by
+  rw [vgetItem_of_norm ch _ _ _ (normSlice_idx _ i), vcount_eq]
+  generalize hj : (if i < 0 then (ch.length : Int) + i else i) = j
+  have hcase : (i < 0 ∧ j = ch.length + i) ∨ (¬ i < 0 ∧ j = i) := by
+    by_cases h : i < 0
+    · rw [if_pos h] at hj; exact Or.inl ⟨h, hj.symm⟩
+    · rw [if_neg h] at hj; exact Or.inr ⟨h, hj.symm⟩
+  by_cases h0 : j < 0
+  · rw [if_pos h0]; simp; omega
+  · rw [if_neg h0]
+    have hL := offsets_length ch
+    by_cases h1 : j < ch.length
+    · obtain ⟨x, hx, _⟩ := npGet_inrange (offsets ch) j (by omega)
+      obtain ⟨y, hy, _⟩ := npGet_inrange (offsets ch) (j + 1) (by omega)
+      rw [hx, hy]; simp [Except.bind]; omega
+    · by_cases h2 : j = ch.length
+      · obtain ⟨x, hx, _⟩ := npGet_inrange (offsets ch) j (by omega)
+        rw [hx, npGet_outofrange (offsets ch) (j + 1) (by omega)]
+        simp [Except.bind]; omega
+      · rw [npGet_outofrange (offsets ch) j (by omega)]
+        simp [Except.bind]; omega
+
+theorem vtileShape_error_iff (ch : List Int) (i : Int) :
+    vtileShape ch i = .error .indexError ↔ (i < -(ch.length : Int) ∨ (ch.length : Int) ≤ i) := by
+  simp only [vtileShape, vcount_eq]
+  generalize hj : (if i < 0 then (ch.length : Int) + i else i) = j
+  have hcase : (i < 0 ∧ j = ch.length + i) ∨ (¬ i < 0 ∧ j = i) := by
+    by_cases h : i < 0
+    · rw [if_pos h] at hj; exact Or.inl ⟨h, hj.symm⟩
+    · rw [if_neg h] at hj; exact Or.inr ⟨h, hj.symm⟩
+  by_cases h0 : j < 0 ∨ j ≥ ch.length
+  · rw [if_pos h0]; simp; omega
+  · rw [if_neg h0]
+    have hL := offsets_length ch
+    obtain ⟨x, hx, _⟩ := npGet_inrange (offsets ch) j (by omega)
+    obtain ⟨y, hy, _⟩ := npGet_inrange (offsets ch) (j + 1) (by omega)
+    simp only [hx, hy, bind, Except.bind, pure, Except.pure]
+    simp; omega
+
+theorem vtile_shape_eq_region_len (ch : List Int) (i : Int) (s : NSlice)
+    (h : vgetItem ch (.idx i) = .ok s) : vtileShape ch i = .ok (s.stop - s.start) := by
+  rw [vgetItem_of_norm ch _ _ _ (normSlice_idx _ i)] at h
+  simp only [vtileShape]
+  generalize (if i < 0 then vcount ch + i else i) = j at h ⊢
+  have hL := offsets_length ch
+  have hT := vcount_eq ch
+  by_cases h0 : j < 0
+  · rw [if_pos h0] at h; cases h
+  · rw [if_neg h0] at h
+    by_cases h1 : j < ch.length
+    · rw [if_neg (by omega)]
+      obtain ⟨x, hx, _⟩ := npGet_inrange (offsets ch) j (by omega)
+      obtain ⟨y, hy, _⟩ := npGet_inrange (offsets ch) (j + 1) (by omega)
+      rw [hx, hy] at h
+      simp only [Except.bind] at h
+      cases h
+      simp only [hx, hy, bind, Except.bind, pure, Except.pure]
+    · exfalso
+      by_cases h2 : j = ch.length
+      · obtain ⟨x, hx, _⟩ := npGet_inrange (offsets ch) j (by omega)
+        rw [hx, npGet_outofrange (offsets ch) (j + 1) (by omega)] at h
+        simp [Except.bind] at h
+      · rw [npGet_outofrange (offsets ch) j (by omega)] at h
+        simp [Except.bind] at h
+
+theorem vgetItem_negative_index (ch : List Int) (i : Int) (hi : -(ch.length : Int) ≤ i ∧ i < 0) :
+    vgetItem ch (.idx i) = vgetItem ch (.idx (ch.length + i)) := by
+  rw [vgetItem_of_norm ch (.idx i) (ch.length + i) (ch.length + i + 1)
+        (by rw [normSlice_idx, if_pos hi.2, vcount_eq]),
+      vgetItem_of_norm ch (.idx (ch.length + i)) (ch.length + i) (ch.length + i + 1)
+        (by rw [normSlice_idx, if_neg (by omega)])]
+
+theorem vtiles_partition (ch : List Int) (hok : ChunksOK ch) (y : Int) (hy : 0 ≤ y ∧ y < vbase ch) :
+    ∃! i : Nat, i < ch.length ∧ ∃ s, vgetItem ch (.idx i) = .ok s ∧ s.Has y := by
+  rw [vbase_eq_total ch hok, ← pre_length] at hy
+  obtain ⟨i, hi, h1, h2⟩ := exists_interval (pre ch) y ch.length (by simpa [pre] using hy.1) hy.2
+  refine ⟨i, ⟨hi, _, vgetItem_idx ch hok i hi, ⟨h1, h2⟩⟩, ?_⟩
+  rintro j ⟨hj, s, hs, hys⟩
+  rw [vgetItem_idx ch hok j hj] at hs
+  cases hs
+  simp only [NSlice.Has] at hys
+  by_contra hne
+  rcases Nat.lt_or_gt_of_ne hne with h | h
+  · have := pre_mono ch hok.1 (j + 1) i (by omega); omega
+  · have := pre_mono ch hok.1 (i + 1) j (by omega); omega
+
+theorem vregion_within (ch : List Int) (hok : ChunksOK ch) (i : Nat) (hi : i < ch.length) (s : NSlice)
+    (h : vgetItem ch (.idx i) = .ok s) : 0 ≤ s.start ∧ s.start ≤ s.stop ∧ s.stop ≤ vbase ch := by
+  rw [vgetItem_idx ch hok i hi] at h
+  cases h
+  rw [vbase_eq_total ch hok]
+  exact ⟨pre_nonneg ch hok.1 i, pre_mono_step ch hok.1 i, pre_le_total ch hok.1 _⟩
+
+theorem vregions_disjoint (ch : List Int) (hok : ChunksOK ch) (i j : Nat) (hi : i < ch.length)
+    (hj : j < ch.length) (hij : i ≠ j) (si sj : NSlice)
+    (hsi : vgetItem ch (.idx i) = .ok si) (hsj : vgetItem ch (.idx j) = .ok sj) (y : Int) :
+    ¬ (si.Has y ∧ sj.Has y) := by
+  rw [vgetItem_idx ch hok i hi] at hsi
+  rw [vgetItem_idx ch hok j hj] at hsj
+  cases hsi; cases hsj
+  simp only [NSlice.Has]
+  rintro ⟨⟨a1, a2⟩, b1, b2⟩
+  rcases Nat.lt_or_gt_of_ne hij with h | h
+  · have := pre_mono ch hok.1 (i + 1) j (by omega); omega
+  · have := pre_mono ch hok.1 (j + 1) i (by omega); omega
+
+theorem vlocate_inverse (ch : List Int) (hok : ChunksOK ch) (y : Int) (hy : 0 ≤ y ∧ y < vbase ch) :
+    ∃ (i : Nat) (s : NSlice), vlocate ch y = .ok (i : Int) ∧ i < ch.length ∧
+      vgetItem ch (.idx i) = .ok s ∧ s.Has y := by
+  obtain ⟨r1, r2, r3⟩ := searchsorted_split (cumsum32 0 ch) y (sorted_cumsum32 ch hok)
+  have hloc : vlocate ch y = .ok ((searchsortedRight (cumsum32 0 ch) y : Nat) : Int) := by
+    simp only [vlocate]; rw [if_neg (by omega)]
+  generalize searchsortedRight (cumsum32 0 ch) y = r at *
+  rw [cumsum32_length] at r1
+  have hb : 0 + total ch < 2147483648 := by have := hok.2; omega
+  have hyT := hy.2
+  rw [vbase_eq_total ch hok] at hyT
+  have hrT : r < ch.length := by
+    by_contra hc
+    have hr : r = ch.length := by omega
+    by_cases h0 : ch.length = 0
+    · have : total ch = 0 := by rw [← pre_length, h0]; cases ch <;> rfl
+      omega
+    · have := r2 (ch.length - 1) _ (by omega)
+        (cumsum32_getElem? 0 ch hok.1 (le_refl 0) hb (ch.length - 1) (by omega))
+      have e : ch.length - 1 + 1 = ch.length := by omega
+      rw [e, pre_length] at this
+      omega
+  have hhi := r3 r _ (le_refl _) (cumsum32_getElem? 0 ch hok.1 (le_refl 0) hb r hrT)
+  have hlo : pre ch r ≤ y := by
+    cases r with
+    | zero => simpa [pre] using hy.1
+    | succ r =>
+      have := r2 r _ (by omega) (cumsum32_getElem? 0 ch hok.1 (le_refl 0) hb r (by omega))
+      omega
+  refine ⟨r, _, hloc, hrT, vgetItem_idx ch hok r hrT, ?_⟩
+  simp only [NSlice.Has]; omega
+
+theorem vlocate_error_iff (ch : List Int) (y : Int) :
+    vlocate ch y = .error .indexError ↔ (y < 0 ∨ vbase ch ≤ y) := by
+  simp only [vlocate]
+  by_cases h : y < 0 ∨ y ≥ vbase ch
+  · rw [if_pos h]; simp; omega
+  · rw [if_neg h]; simp; omega
+
+theorem vchunks_spec (ch : List Int) (hok : ChunksOK ch) :
+    vchunks ch = ch ∧ (vchunks ch).sum = vbase ch ∧ ((vchunks ch).length : Int) = vcount ch ∧
+      ∀ (i : Nat) (c : Int), ch[i]? = some c → vtileShape ch i = .ok c := by
+  have h1 : vchunks ch = ch := by
+    unfold vchunks offsets
+    exact diff32_cumsum32 0 ch hok.1 (le_refl 0) (by have := hok.2; omega)
+  refine ⟨h1, by rw [h1, vbase_eq_total ch hok, total_eq_sum], by rw [h1, vcount_eq], ?_⟩
+  intro i c hc
+  have hi := (List.getElem?_eq_some_iff.1 hc).1
+  rw [vtile_shape_eq_region_len ch i _ (vgetItem_idx ch hok i hi)]
+  simp only []
+  rw [pre_step ch i c hc]
+  congr 1; omega
+
+theorem vcrop_is_tiling_of_crop (ch : List Int) (hok : ChunksOK ch) (idx : PIdx) (a b : Nat)
+    (hr : normSlice idx (vcount ch) = ⟨a, b⟩) (hab : a ≤ b ∧ b ≤ ch.length) :
+    vcrop ch idx = (ch.drop a).take (b - a) ∧ ChunksOK (vcrop ch idx) ∧
+      (vcrop ch idx).length = b - a ∧ vbase (vcrop ch idx) = pre ch b - pre ch a ∧
+      ∀ k : Nat, k < b - a →
+        ∃ s s', vgetItem ch (.idx ((a + k : Nat) : Int)) = .ok s ∧
+          vgetItem (vcrop ch idx) (.idx (k : Int)) = .ok s' ∧
+          s.start = s'.start + pre ch a ∧ s.stop = s'.stop + pre ch a := by
+  have hc : vcrop ch idx = (ch.drop a).take (b - a) := by
+    simp only [vcrop, hr, (vchunks_spec ch hok).1]
+    exact pySlice_inrange ch a b hab
+  have hpre : ∀ k, k ≤ b - a → pre ((ch.drop a).take (b - a)) k = pre ch (a + k) - pre ch a := by
+    intro k hk
+    rw [pre_take _ _ _ hk, pre_drop]
+  have hok' : ChunksOK ((ch.drop a).take (b - a)) := by
+    constructor
+    · intro c hc'
+      exact hok.1 c (List.mem_of_mem_drop (List.mem_of_mem_take hc'))
+    · rw [total_take, pre_drop]
+      have h1 := pre_le_total ch hok.1 (a + (b - a))
+      have h2 := pre_nonneg ch hok.1 a
+      have := hok.2
+      omega
+  have hlen : ((ch.drop a).take (b - a)).length = b - a := by
+    simp; omega
+  rw [hc]
+  refine ⟨rfl, hok', hlen, ?_, ?_⟩
+  · rw [vbase_eq_total _ hok', total_take, pre_drop]
+    have : a + (b - a) = b := by omega
+    rw [this]
+  · intro k hk
+    refine ⟨_, _, vgetItem_idx ch hok (a + k) (by omega), vgetItem_idx _ hok' k (by omega), ?_, ?_⟩
+    · simp only []; rw [hpre k (by omega)]; omega
+    · simp only []; rw [hpre (k + 1) (by omega)]
+      have : a + (k + 1) = a + k + 1 := by omega
+      rw [this]; omega
 
 end OdcGeo.C04
